@@ -1273,7 +1273,10 @@ class GroupBy:
         sq_sum = self._apply_gb_reduction("sum_squares", values=values, **kwargs)
         sum_sq = self.sum(values=values, **kwargs).to_numpy().astype(np.float64) ** 2
         count = self.count(values=values, **kwargs)
-        return (sq_sum - sum_sq / count) / (count - ddof)
+        # too few values for the requested degrees of freedom: null, not a division by zero or a negative "variance"
+        n_values = np.asarray(count.to_numpy(), dtype=np.float64)
+        denominator = np.where(n_values > ddof, n_values - ddof, np.nan)
+        return (sq_sum - sum_sq / count) / denominator
 
     @groupby_method(_GB_REDUCTION_DOCSTRING, full_name="standard deviation")
     def std(
